@@ -92,7 +92,11 @@ func (pm *panicModel) siteReason(s panicSite) (string, bool) {
 			break
 		}
 	}
-	if r, ok := lookupReasonSite(c10Reasons, names, s.kind, []string{s.canon}); ok {
+	keys := []string{s.canon}
+	if s.alt != "" {
+		keys = append(keys, s.alt)
+	}
+	if r, ok := lookupReasonSite(c10Reasons, names, s.kind, keys); ok {
 		return r, true
 	}
 	if os.Getenv("TSS_REKEY") != "" {
@@ -222,6 +226,7 @@ func checkC10(c *Ctx) {
 				fn := FuncName(f)
 				expr := render(snd.Chan)
 				site := mkSite("block", snd, func() string { return render(snd.Chan) }, "")
+				site.alt = canonType(snd.Chan.Type()) // a parameter, a local and a field of a session object alike
 				if r, ok := pm.siteReason(site); ok {
 					c.OK(P3, fn, "send on "+expr, pm.m.Pos(snd.Pos()), "reason: "+r)
 				} else {
@@ -311,6 +316,43 @@ func (pm *panicModel) dischargeAssert(s panicSite) (bool, string) {
 					mapField = syncMapField(cl.Call.Args[0])
 					isKey = paramIndex(x) == 0
 				}
+			}
+		}
+		// … or of a named method used (only) as a Range callback through a method value x.M
+		if mapField == nil && fn.Signature.Recv() != nil && fn.Object() != nil && !fn.Object().Exported() && len(pm.sl.callers[fn]) == 0 {
+			var fld *types.Var
+			uses, all := 0, true
+			for _, f := range pm.fns {
+				for _, in := range instrsOf(f) {
+					mc, ok := in.(*ssa.MakeClosure)
+					if !ok {
+						continue
+					}
+					if _, mo, isB := boundMethod(mc); !isB || mo != fn.Object() {
+						continue
+					}
+					if mc.Referrers() == nil {
+						continue
+					}
+					for _, r := range *mc.Referrers() {
+						cl, ok := r.(*ssa.Call)
+						if !ok || !isCallTo(&cl.Call, "sync", "Map.Range") {
+							all = false
+							continue
+						}
+						fm := syncMapField(cl.Call.Args[0])
+						if fm == nil || (fld != nil && fld != fm) {
+							all = false
+							continue
+						}
+						fld = fm
+						uses++
+					}
+				}
+			}
+			if all && uses > 0 && !implementsSomething(fn) {
+				mapField = fld
+				isKey = paramIndex(x) == 1 // after the receiver
 			}
 		}
 		// parameter typed interface{} fed by callers with a Load result
